@@ -22,7 +22,7 @@ type scScope struct {
 	names  [scMaxBind]rune
 	vals   [scMaxBind]float64
 	null   [scMaxBind]bool // the binding holds nil
-	isFn   [scMaxBind]int // index into scFns, or -1
+	isFn   [scMaxBind]int  // index into scFns, or -1
 	n      int
 	parent int
 }
